@@ -440,6 +440,43 @@ def r8_core_intern_binds_the_interned_var(ctx):
                witness="(def ^:redef r 1) (intern 'my.ns 'r 5) r must be 5")
 
 
+@rule("C10.R12", floor=2)
+def r12_the_local_name_test_sees_every_enclosing_function(ctx):
+    """R7's guard asks the symbol table whether a Python local of that name is in scope.  A Python
+    closure sees the locals of *every* enclosing function, so the test the guard calls has to walk
+    the frames up to the top level: its only negative answer is given at the frame that has no
+    parent, and from every other frame that does not know the name it asks the parent.  Stopping at
+    the function boundary (as the per-function queries rightly do) lets the parameter of an outer
+    fn capture a Var referenced from a nested closure -- the fns that for, delay, lazy-seq and
+    future wrap around their bodies included."""
+    tree = ctx.py(GEN)
+    dl = P.find_def(tree, "__var_direct_link_to_py_ast")
+    st = P.find_def(tree, "SymbolTable")
+    if dl is None or st is None:
+        raise AnalysisError("anchor vanished: generator.__var_direct_link_to_py_ast / SymbolTable")
+    tests = sorted({P.un(c.func).rsplit(".", 1)[1] for i in ast.walk(dl) if isinstance(i, ast.If) for c in ast.walk(i.test)
+                    if isinstance(c, ast.Call) and "symbol_table." in P.un(c.func)})
+    if not tests:
+        raise AnalysisError("__var_direct_link_to_py_ast no longer consults the symbol table (C10.R7 decides whether it has to)")
+    for tname in tests:
+        m = P.methods(st).get(tname)
+        if m is None:
+            raise AnalysisError(f"anchor vanished: SymbolTable.{tname}")
+        rets = [r for r in ast.walk(m) if isinstance(r, ast.Return)]
+        rec = [r for r in rets if r.value is not None and any(isinstance(c, ast.Call) and P.un(c.func) == f"self._parent.{tname}" for c in ast.walk(r.value))]
+        ok = bool(rec)
+        ctx.ob("C10.R12", f"{GEN}::SymbolTable.{tname}::a frame that does not know the name asks its parent", GEN, m.lineno, ok,
+               "" if ok else f"SymbolTable.{tname} never asks the parent frame: only the innermost frame is searched")
+        for r in rets:
+            if not (isinstance(r.value, ast.Constant) and r.value.value is False):
+                continue
+            conds = [i for i in P.ancestors(r) if isinstance(i, ast.If) and P.contains(m, i) and any(P.contains(b, r) for b in i.body)]
+            at_top = bool(conds) and all(P.un(i.test) in ("self._parent is None", "self.is_top") for i in conds)
+            ctx.ob("C10.R12", f"{GEN}::SymbolTable.{tname}::`no` is answered by the top frame only ({' and '.join(P.un(i.test) for i in conds) or 'unconditionally'})", GEN, r.lineno, at_top,
+                   "" if at_top else f"SymbolTable.{tname} answers `no` under `{' and '.join(P.un(i.test) for i in conds) or 'no condition'}` without asking the enclosing frames: a parameter of an enclosing function is not seen from a nested closure, and the bare global name emitted there reads that parameter instead of the Var",
+                   witness="(def helper ...) (defmacro m [] `(helper 1)) (defn g [helper] (map (fn [_] (m)) [1])) calls the argument")
+
+
 @rule("C10.R7", floor=2)
 def r7_bare_global_names_cannot_be_captured_by_locals(ctx):
     """A Var of the current namespace may be compiled to a bare Python global name only if no local
@@ -569,6 +606,13 @@ def r11_refer_filters_only_filter(ctx):
 _GEN_NST ="        with old_st.new_frame(name, is_context_boundary) as st:\n            self._st.append(st)\n            try:\n                yield st\n            finally:\n                self._st.pop()\n"
 
 SELFTEST = [
+    {"name": "the local-name test stops at the function boundary", "file": GEN, "expect": "C10.R12",
+     "old": "            return True\n        return self._parent.is_local_python_name(name)\n", "new": "            return True\n        if self._is_context_boundary:\n            return False\n        return self._parent.is_local_python_name(name)\n"},
+    {"name": "the local-name test looks at the innermost frame only", "file": GEN, "expect": "C10.R12",
+     "old": "            return True\n        return self._parent.is_local_python_name(name)\n", "new": "            return True\n        return False\n"},
+    {"name": "twin: the local-name test written with is_top and one loop-free expression", "file": GEN, "expect": None,
+     "old": "        if self._parent is None:\n            return False\n        if name in self._python_names:\n            return True\n        if any(entry.munged == name for entry in self._table.values()):\n            return True\n        return self._parent.is_local_python_name(name)\n",
+     "new": "        if self.is_top:\n            return False\n        known = name in self._python_names or any(entry.munged == name for entry in self._table.values())\n        return known or self._parent.is_local_python_name(name)\n"},
     {"name": "the rest parameter's Python name is unknown to the symbol table (the repaired defect)", "file": GEN, "expect": "C10.R7",
      "old": "            ctx.symbol_table.new_python_name(arg_name)\n", "new": ""},
     {"name": "module global of another namespace emitted without asking the symbol table (the repaired defect)", "file": GEN, "expect": "C10.R7",
